@@ -143,13 +143,14 @@ partial def parseTree : List String → List Layer6 → Option (List Layer6 × O
     | _, _, _ => none
   | _, _ => none
 
-def parseOut6 : List String → Option (Sys.Out6 × String)
-  | ["drop"] => some (.drop, "rt-ok")
-  | "send" :: ifi :: rest =>
+/-- `send <ifi> <peer> <port> <tree> <rt>`: also where the datagram was sent -/
+def parseOut6 : List String → Option (Sys.Out6 × String × String × String)
+  | ["drop"] => some (.drop, "rt-ok", "-", "-")
+  | "send" :: ifi :: peer :: port :: rest =>
     match (if ifi == "-" then some none else ifi.toNat?.map some), rest.reverse with
     | some ifi, rt :: treeRev =>
       match parseTree treeRev.reverse [] with
-      | some (ls, some m) => some (.send ls ⟨m.mt, m.xid, m.opts⟩ ifi, rt)
+      | some (ls, some m) => some (.send ls ⟨m.mt, m.xid, m.opts⟩ ifi, rt, peer, port)
       | _ => none
     | _, _ => none
   | _ => none
@@ -203,8 +204,10 @@ def stepDg6 (st : St) (bound oob src : String) (res : String) : List String :=
       | _ =>
       match parseOut6 outW with
       | none => brs ++ [s!"DIVERGE dom[sent] unparsed-result {Plug.short (" ".intercalate outW)}", s!"FAIL C01 HandleMsg6: {Plug.short (" ".intercalate outW)}"]
-      | some (out, rt) =>
-        let f12 := if C12.holds bound oob src (input.map Sys.absPkt6) (Sys.absOut6 out) then [] else [s!"FAIL C12 whole chain: {Plug.short res}"]
+      | some (out, rt, peer, port) =>
+        let f12 := (if C12.holds bound oob src (input.map Sys.absPkt6) (Sys.absOut6 out) then [] else [s!"FAIL C12 whole chain: {Plug.short res}"]) ++
+          (if out == .drop || (addr16 peer == some src && port == "546") then [] else
+            [s!"FAIL C12 whole chain: reply sent to {peer} port {port}, the datagram came from {addrHex src} port 546"])
         let frt := if rt == "rt-ok" then [] else [s!"FAIL C19 the reply of the whole chain does not survive the wire: {rt}"]
         if !st.known then brs ++ f12 ++ frt ++ ["br:sys.chain-unknown"] else
         let d := diff6 m out
